@@ -873,4 +873,38 @@ theorem charging_infinite_meter_fine (c n : Nat) :
     (evmOnlyChargingBlock { finite := false, limit := 0, consumed := c } true n).isPanic = false := by
   simp [evmOnlyChargingBlock, consumeBlockGas]
 
+/-! ### rvesting genesis document -/
+
+/-- **rvesting_genesis_total**: `InitGenesis` is total (returns) on every rvesting genesis document accepted by `ValidateGenesis`
+whose `from` account, if any, can pay `init_reward`.  The validation the proof needs is the whole-list `Coins.Validate`
+(sorted, no duplicates, positive): it is exactly what `SendCoins` re-checks. -/
+theorem rvesting_genesis_total (d : RvDoc) (canPay : Bool) (h : rvValidateDoc d = .ok ())
+    (hp : d.src = .good → canPay = true) : rvInitDoc d canPay = .ok () := by
+  unfold rvValidateDoc at h
+  unfold rvInitDoc
+  split at h
+  · simp at h
+  · rename_i hv
+    simp only [hv]
+    cases hs : d.src with
+    | none => rfl
+    | bad => simp [hs] at h
+    | good =>
+      simp only [hs] at h ⊢
+      split at h
+      · rename_i hr
+        simp [hr, hp hs]
+      · simp at h
+
+/-- the documented exception: a validated document whose `from` cannot pay panics (bank-genesis fact). -/
+theorem rvesting_genesis_unfunded_panics :
+    ∃ d, rvValidateDoc d = .ok () ∧ (rvInitDoc d false).isPanic = true :=
+  ⟨{ enable := false, reward := [{ denom := "atele", amount := some 1 }], src := .good, initReward := [("atele", 5)] }, by decide, by decide⟩
+
+/-- weakening the validation to coin-by-coin and canonicalising with `sdk.NewCoins` is NOT total: [5atele, 7uxyz, 3atele]. -/
+theorem per_coin_validation_breaks_totality :
+    ∃ d, rvValidateDocPerCoin d = .ok () ∧ (rvInitDocNewCoins d true).isPanic = true :=
+  ⟨{ enable := false, reward := [{ denom := "atele", amount := some 1 }], src := .good,
+     initReward := [("atele", 5), ("uxyz", 7), ("atele", 3)] }, by decide, by decide⟩
+
 end TM.NoPanic
